@@ -389,7 +389,10 @@ func (state *IntraAnalysisState) checkFlow(source *Mark, dest ssa.Instruction, d
 		// any instruction that refers to the function (e.g. the function is returned, or called)
 		// This is often the case when there is a flow through a closure that binds variables by reference, and
 		// the variable is tainted after the closure is created.
-		if _, isFunc := asVal.Type().Underlying().(*types.Signature); isFunc {
+		// This does not apply to calls that return a function: the data flows to the arguments of the call when the
+		// call is executed, whether its result is used or not.
+		_, isCall := dest.(ssa.CallInstruction)
+		if _, isFunc := asVal.Type().Underlying().(*types.Signature); isFunc && !isCall {
 			return funcutil.FindMap(*asVal.Referrers(),
 				func(i ssa.Instruction) ConditionInfo { return state.checkPathBetweenInstructions(sourceInstr, i) },
 				func(c ConditionInfo) bool { return c.Satisfiable }).ValueOr(ConditionInfo{Satisfiable: false})
